@@ -117,8 +117,18 @@ class CanvasCache:
         if depends_on is None and hasattr(canvas, "children"):
             depends_on = walk_depends(canvas)
         if depends_on:
+            # every widget we depend on must have a cached canvas that is part of this canvas: a canvas of it cached
+            # for another size or focus says nothing about the one used here (if that one is not cached, nothing
+            # would ever invalidate us)
+            part_of = set()
+            stack = [canvas]
+            while stack:
+                for _x, _y, child, _pos in getattr(stack.pop(), "children", ()):
+                    part_of.add(id(child))
+                    stack.append(child)
             for w in depends_on:
-                if w not in cls._widgets:
+                refs = cls._widgets.get(w)
+                if not refs or not any(id(ref()) in part_of for ref in refs.values()):
                     return
             for w in depends_on:
                 cls._deps.setdefault(w, []).append(widget)
